@@ -14,6 +14,7 @@ import (
 	"net/http"
 	"net/url"
 	"os"
+	"os/exec"
 	"path/filepath"
 	"runtime/debug"
 	"sort"
@@ -58,6 +59,24 @@ func (nullWitness) Update(context.Context, string, uint64, []byte, [][]byte) ([]
 
 func main() {
 	wit.Quiet()
+	if name := os.Getenv("VERIF_C17_CHILD"); name != "" {
+		// child: start the assembled service on one shipped file, under the Prometheus-backed metric factory
+		// the binary installs by default (a start-up panic ends this process, and the parent reports it)
+		wit.ProdMetrics()
+		run := ev.Start("C17", "exploration")
+		defer run.Finish()
+		raw := omniwitness.ConfigLogs
+		if name != "logs.yaml" {
+			var err error
+			if raw, err = os.ReadFile(os.Getenv("VERIF_C17_FILE")); err != nil {
+				run.Inconclusive(err.Error())
+				return
+			}
+			omniwitness.ConfigLogs = raw
+		}
+		startMain(run, name, raw)
+		return
+	}
 	wit.EnsureMetrics(nil)
 	run := ev.Start("C17", "exploration")
 	defer run.Finish()
@@ -85,13 +104,31 @@ func main() {
 		// Main would fail or crash the process for the reasons already recorded
 		return
 	}
-	startMain(run, "logs.yaml", omniwitness.ConfigLogs)
-	if raw, err := os.ReadFile(filepath.Join(repo, "omniwitness", "logs_test.yaml")); err == nil && run.ViolationCount() == 0 {
-		saved := omniwitness.ConfigLogs
-		omniwitness.ConfigLogs = raw
-		startMain(run, "logs_test.yaml", raw)
-		omniwitness.ConfigLogs = saved
+	// the assembled service is started in a child process per shipped file, as the binary runs it
+	self, _ := os.Executable()
+	dir := run.Scratch()
+	for _, name := range []string{"logs.yaml", "logs_test.yaml"} {
+		out := filepath.Join(dir, "child-"+name+".json")
+		cmd := exec.Command(self)
+		cmd.Env = append(os.Environ(), "VERIF_C17_CHILD="+name, "VERIF_C17_FILE="+filepath.Join(repo, "omniwitness", name), "VERIF_EXPORT="+out, "VERIF_WORKER_TAG=child-"+name+"-")
+		cmd.Dir = dir
+		o, err := cmd.CombinedOutput()
+		if err != nil {
+			run.Count("evaluations")
+			run.Violate("process_dies_starting_shipped_config;"+name, fmt.Sprintf("%s: the process that starts omniwitness.Main on the shipped configuration (Prometheus metric factory, polling and distributor on) died: %v", name, err), -1, map[string]any{"output": tailOf(string(o), 1500)})
+			continue
+		}
+		if err := run.Merge(out); err != nil {
+			run.Inconclusive("child output unreadable: " + err.Error())
+		}
 	}
+}
+
+func tailOf(s string, n int) string {
+	if len(s) > n {
+		return s[len(s)-n:]
+	}
+	return s
 }
 
 func checkFile(run *ev.Run, name string, raw []byte) {
